@@ -81,6 +81,36 @@ Proof.
   unfold unit_none. apply wps_bind. apply assert_by_s; [exact G|exact O|]. intros s0 _ F. cbn [wps ret]. exact F.
 Qed.
 End Run.
+(* the unary assertions of the three classes: assert_zero, assert_nonzero, assert_positive (at the global bitlength for booleans and
+   fixed-point numbers, at an optional explicit width for secret integers) act on the receiver's wire *)
+Definition unary_wire (recv : pyval) : option slc := match recv with PLC x | PBool _ x | PFxp _ x => Some x | _ => None end.
+Section RunU.
+Variable s : gst.
+Hypothesis G : Gok s.
+Hypothesis O : Oone s.
+Notation sat cs := (Forall (holds (p:=p) w) (cons_of cs)).
+Theorem meth_assert_zero_forced recv x r s' cs : unary_wire recv = Some x ->
+  run (gen_meth c MAssertZero recv []) s = (inl r, s', cs) -> sat cs -> ew x == 0.
+Proof.
+  intros Hw R H. assert (E : gen_meth c MAssertZero recv [] = unit_none (assert_zero x)) by (destruct recv; try discriminate Hw; inversion Hw; subst; reflexivity).
+  rewrite E in R. apply (wps_sound w _ _ (unit_none (assert_zero x)) s (fun _ _ => ew x == 0)) with (s' := s') (cs := cs) (a := r); auto.
+  unfold unit_none. apply wps_bind. apply assert_zero_s; try assumption. intros s0 _ Z0. cbn [wps ret]. exact Z0.
+Qed.
+Theorem meth_assert_nonzero_forced recv x r s' cs : unary_wire recv = Some x ->
+  run (gen_meth c MAssertNonzero recv []) s = (inl r, s', cs) -> sat cs -> ~ ew x == 0.
+Proof.
+  intros Hw R H. assert (E : gen_meth c MAssertNonzero recv [] = unit_none (assert_nonzero x)) by (destruct recv; try discriminate Hw; inversion Hw; subst; reflexivity).
+  rewrite E in R. apply (wps_sound w _ _ (unit_none (assert_nonzero x)) s (fun _ _ => ~ ew x == 0)) with (s' := s') (cs := cs) (a := r); auto.
+  unfold unit_none. apply wps_bind. apply assert_nonzero_s; try assumption. intros s0 _ Z0. cbn [wps ret]. exact Z0.
+Qed.
+Theorem meth_assert_positive_forced recv x r s' cs : unary_wire recv = Some x ->
+  run (gen_meth c (MAssertPositive None) recv []) s = (inl r, s', cs) -> sat cs -> exists v, 0 <= v < 2 ^ Z.of_nat (nbits c) /\ ew x == v.
+Proof.
+  intros Hw R H. assert (E : gen_meth c (MAssertPositive None) recv [] = unit_none (assert_positive x (nbits c))) by (destruct recv; try discriminate Hw; inversion Hw; subst; reflexivity).
+  rewrite E in R. apply (wps_sound w _ _ (unit_none (assert_positive x (nbits c))) s (fun _ _ => exists v, 0 <= v < 2 ^ Z.of_nat (nbits c) /\ ew x == v)) with (s' := s') (cs := cs) (a := r); auto.
+  unfold unit_none. apply wps_bind. apply assert_positive_s; try assumption. intros s0 _ Z0. cbn [wps ret]. exact Z0.
+Qed.
+End RunU.
 (* the wire of a fixed-point operand's counterpart: an int k is compared as k * 2^r, a secret integer y as y * 2^r *)
 Lemma wires_fxp_int f x k : wires (PFxp f x) (PInt k) = Some (x, constv (k * R c)). Proof. reflexivity. Qed.
 Lemma ew_fxp_int k : ew (constv (p:=p) (k * R c)) = k * R c. Proof. apply ew_constv. exact W0. Qed.
